@@ -190,6 +190,7 @@ def decode_arg(nm, ty, vals, se):
 def validate_encoding(prog, ob, se, base, viol, wit, points, checks_on):
     """push concrete argument tuples through the native build and through the encoding (arguments fixed); both must agree"""
     names = [(nm, ty, v) for nm, ty, v in se['names']]
+    over_approx = any('/uf' in a or '/bound' in a for a in ob.abstractions)
     calls = [(ob.fn, [('true' if x is True else 'false' if x is False else str(x)) for x in pt]) for pt in points]
     native = prog.scratch.native(not checks_on, calls)
     s = z3.Solver(); s.set('timeout', 30000)
@@ -211,7 +212,11 @@ def validate_encoding(prog, ob, se, base, viol, wit, points, checks_on):
         else: enc = ('RETURNED' if r1 == z3.sat else '') + ('PANICKED' if r2 == z3.sat else '')
         if enc == '': enc = 'ASSUME'
         natk = nat.split(' ')[0]
-        if enc == natk: agree += 1
+        if over_approx:
+            # uninterpreted oracle/callee functions admit more behaviours than the real ones: the native outcome must be among them
+            if natk == 'ASSUME' or natk in enc: agree += 1
+            else: dis.append({'args': [str(x) for x in pt], 'native': nat[:120], 'encoding allows': enc})
+        elif enc == natk: agree += 1
         else: dis.append({'args': [str(x) for x in pt], 'native': nat[:120], 'encoding': enc})
     return {'points': len(points), 'agree': agree, 'undecided': undecided, 'disagreements': dis[:5]}
 
